@@ -494,8 +494,6 @@ package types
 //@ contract interface SessionType.StringWithOuterModality(self)
 //@   requires[C09] shapeOK(self)
 //@   decreases[C09] size(self)
-//@ contract stringifyBranches
-//@   inline
 
 // the polarity of a type is read off its head constructor: a type name has to be unfolded first
 //@ contract interface SessionType.Polarity(self)
@@ -704,3 +702,37 @@ package types
 //@ spec eqT(a SessionType, b SessionType, D Set[string], V Arr[string]LabelledType) bool where result && !is(a, LabelType) && !is(b, LabelType) ==> headOK(a, b)
 //@ contract EqualType
 //@   defines[C07] eqT(type1, type2, dom(labelledTypesEnv), vals(labelledTypesEnv))
+
+// ---------------------------------------------------------------------------------------------
+// C15: printed types are unambiguous. pp is the canonical printer read off the grammar (parser.y: `*`, `-*` and the
+// two shifts share one right-associative precedence level, so the right operand of a binary type and the continuation
+// of a shift extend as far right as possible and need no parentheses, while a left operand that is itself a send,
+// receive or shift type must be parenthesised); String() is proved equal to it. That the generated parser maps pp(t)
+// back to t (under the head mode) is an argument about the grammar, not mechanised.
+//@ macro modeStr(m Modality) string = ite(is(m, ReplicableMode), "rep", ite(is(m, MulticastMode), "mul", ite(is(m, AffineMode), "aff", ite(is(m, LinearMode), "lin", ite(is(m, UnsetMode), "unset", ite(is(m, InvalidMode), "invalid: " + InvalidMode(m).mode, modeStrOther(m)))))))
+//@ spec modeStrOther(m Modality) string
+//@ macro needsParen(t SessionType) bool = is(t, SendType) || is(t, ReceiveType) || is(t, UpType) || is(t, DownType)
+//@ macro lp(t SessionType) string = ite(needsParen(t), "(" + pp(t) + ")", pp(t))
+//@ spec ppOpts(bs []Option, n int) string = ite(n <= 0, "", ite(n == 1, bs[0].Label + " : " + pp(bs[0].SessionType), ppOpts(bs, n - 1) + ", " + bs[n-1].Label + " : " + pp(bs[n-1].SessionType)))
+//@ spec pp(t SessionType) string =
+//@    ite(is(t, LabelType), LabelType(t).Label,
+//@    ite(is(t, UnitType), "1",
+//@    ite(is(t, SendType), lp(SendType(t).Left) + " * " + pp(SendType(t).Right),
+//@    ite(is(t, ReceiveType), lp(ReceiveType(t).Left) + " -* " + pp(ReceiveType(t).Right),
+//@    ite(is(t, SelectLabelType), "+{" + ppOpts(SelectLabelType(t).Branches, len(SelectLabelType(t).Branches)) + "}",
+//@    ite(is(t, BranchCaseType), "&{" + ppOpts(BranchCaseType(t).Branches, len(BranchCaseType(t).Branches)) + "}",
+//@    ite(is(t, UpType), modeStr(UpType(t).From) + "/\\" + modeStr(UpType(t).To) + " " + pp(UpType(t).Continuation),
+//@        modeStr(DownType(t).From) + "\\/" + modeStr(DownType(t).To) + " " + pp(DownType(t).Continuation))))))))
+//@ contract interface Modality.String(self)
+//@   ensures C15.modeStr: result == modeStr(self)
+// a printer writes only into buffers of its own
+//@ macro buffersKept() bool = forall b Ref :: !fresh(b) ==> bufstr[b] == old(bufstr[b])
+//@ contract interface SessionType.String(self)
+//@   ensures C15.print: result == pp(self)
+//@   ensures C15.printFrame: buffersKept()
+//@ contract stringifyBranches
+//@   requires[C09] optionsOK(options)
+//@   ensures C15.branches: result == ppOpts(options, len(options))
+//@   loop 1 invariant bufstr[addrof(buf)] == ppOpts(options, idx + 1) + ite(0 <= idx && idx < len(options) - 1, ", ", "")
+//@   loop 1 invariant buffersKept()
+//@   ensures C15.branchesFrame: buffersKept()
